@@ -20,6 +20,9 @@ INITIALLY_MISSED = {  # seeded change -> what the check lacked (strengthening do
  "C27-4": "store/delete histories on one key with entries sharing _chf_ but differing in values/eclass data added to C27",
  "C28-3": "histories on one Manifest object (read, same-size change, update, read again; Manifest mtime pinned) added to C28",
  "C28-4": "non-ASCII AUX/MISC/DIST names + stricter idempotence oracle (returns False, inode/mtime_ns/size unchanged) added to C28",
+ "C01-4": "ver_cmp called with plain-str / mixed / '' revisions (its documented signature) besides Revision objects added to C01",
+ "C41-3": "two-call histories (an earlier call whose input raises while being fed, then the judged call) added to C41; module state reloaded per execution so executions stay independent",
+ "C44-3": "single-'*' tokens with overlapping prefix/suffix ('a*a', 'ab*ba', '1.*.1') and values shorter than prefix+suffix in every glob position added to C44",
  "C03-1": "glob atoms with explicit -r0/-r0N revisions + wider match universe added to C03",
  "C03-2": "multi-flag USE lists with a default on a non-last flag added to C03",
  "C04-2": "atom slot form with sub-slot equal to slot (:0/0) added to C04 quick",
